@@ -328,7 +328,10 @@ fn rule(state: &mut BlockState, silent: bool) -> bool {
         if state.line_indent(next_line) >= 4 { break; }
 
         // fail if terminating block found
-        if state.test_rules_at_line() {
+        let old_state_line = state.line;
+        let terminate = state.test_rules_at_line();
+        state.line = old_state_line;
+        if terminate {
             break 'outer;
         }
 
